@@ -36,6 +36,17 @@ namespace OpenMEEG {
 
                 return std::string(buffer);
             }
+
+            //  Report a write that the device did not accept (full device, quota, ...).
+            //  This is not a maths::Exception on purpose: the save methods catch those to retry with another format.
+
+            static void
+            CheckWritten(std::ofstream& os,const std::string& name) {
+                if (os.is_open())
+                    os.flush();
+                if (os.fail())
+                    throw std::ios_base::failure(std::string("Error while writing the file ")+name);
+            }
         }
 
         MathsIO::IO MathsIO::DefaultIO = 0;
@@ -107,6 +118,7 @@ namespace OpenMEEG {
                 if (dio->known(linop)) {
                     dio->setName(mio.name());
                     dio->write(os,linop);
+                    Internal::CheckWritten(os,mio.name());
                     return mio;
                 }
             } else {
@@ -114,6 +126,7 @@ namespace OpenMEEG {
                     if ((*io)->known(linop)) {
                         (*io)->setName(mio.name());
                         (*io)->write(os,linop);
+                        Internal::CheckWritten(os,mio.name());
                         return mio;
                     }
                 }
